@@ -171,8 +171,10 @@ func lenClass(L int) string {
 		return fmt.Sprintf("len%d", L)
 	case L < 64:
 		return "len34-63"
-	default:
+	case L == 64:
 		return "len64"
+	default:
+		return "len65+"
 	}
 }
 
@@ -180,13 +182,18 @@ func runC16(c *mon.Ctx) {
 	reps := c.Pick(14, 600)
 	k := 0
 	for rep := 0; rep < reps; rep++ {
-		for L := 0; L <= 64; L++ {
+		for Li := 0; Li <= 70; Li++ {
+			L := Li
+			if Li > 64 {
+				// beyond the property's 0..64: lengths longer than any fixed buffer a decoder might keep (the reducing
+				// decoders take any length; the canonical one must reject)
+				L = []int{65, 66, 80, 96, 128, 200}[Li-65]
+			}
 			k++
 			if !c.Mine(k) {
 				continue
 			}
 			id := fmt.Sprintf("decode/rep%d/len%d", rep, L)
-			L := L
 			c.Case(id, func() {
 				rng := c.Rand(id)
 				strs, cls := c16strings(rng, L)
